@@ -616,7 +616,7 @@ def handler_object_reuse(ctx, i):
 
 
 def run(ctx):
-    n = 240 if ctx.tier == "quick" else 12000
+    n = 600 if ctx.tier == "quick" else 12000
     core.WARM_P = 0.0
     if ctx.replay:
         ctx.inconc("C18 replays are re-generated from the seed; re-run the tier with the recorded seed")
